@@ -170,9 +170,12 @@ def run(W, chk):
                        "partial close creates %s" % show(v)[:400], where(e))
         else:
             ea2 = {o: ops for o, ops in ea.items() if o != "Store(POSITIONS).expiring_at"}
-            am = {o: ops for (o, ops) in flat_atoms(vfield(vfield(v, "lp_asset"), "amount"))}
+            am = {}
+            for (o, ops) in flat_atoms(vfield(vfield(v, "lp_asset"), "amount")):
+                am[o] = frozenset(am.get(o, frozenset()) | ops)
             want_am = {"Store(POSITIONS).lp_asset.amount", P + ".Close.lp_asset.amount"}
-            ok = ea2 == want_exp and set(am) == want_am and all(x <= {"sat", "sub"} for x in am.values())
+            ok = ea2 == want_exp and am == {"Store(POSITIONS).lp_asset.amount": frozenset(["sat", "sub", "sub:l"]),
+                                             P + ".Close.lp_asset.amount": frozenset(["sat", "sub", "sub:r"])}
             chk.expect(ok, "PROV-position-fields", "close.original", "expiring_at <- now + unlocking_duration; amount <- stored - requested",
                        "close writes expiring_at %s amount %s" % ({k: sorted(x) for k, x in ea.items()}, {k: sorted(x) for k, x in am.items()}), where(e))
 
